@@ -406,7 +406,7 @@ func c13Scripts(c *vctx) []c13Script {
 		{Kind: "op-delay", FailFrom: 3*iv + 1, FailUntil: -1, SlowFrom: -1, OpDelay: 20000, RemoveAt: -1, UnlockAt: -1, End: 70 * min},
 		{Kind: "transient", FailFrom: 2*iv - 1000, FailUntil: 2*iv + 40000, SlowFrom: -1, RemoveAt: -1, UnlockAt: 30 * min, End: 70 * min, Transient: true},
 	}
-	n := c.n(12, 120)
+	n := c.n(8, 120)
 	for i := 0; i < n; i++ {
 		rng := c.rng.fork()
 		sc := c13Script{Kind: "rand", FailFrom: -1, FailUntil: -1, SlowFrom: -1, RemoveAt: -1, UnlockAt: -1, End: 75 * min}
